@@ -46,9 +46,32 @@ impl LzmaBuilt {
 }
 
 /// marker: 0 = draw, 1 = force marker, 2 = force no marker
+/// Five bytes with which other container formats start and which are, read as an
+/// LZMA header, a legal properties byte followed by a legal dictionary size.
+pub const FOREIGN_MAGICS: [[u8; 5]; 9] = [
+    *b"LZIP\x01",
+    [0x1F, 0x8B, 0x08, 0x00, 0x00],
+    *b"BZh91",
+    [0x28, 0xB5, 0x2F, 0xFD, 0x24],
+    [0x50, 0x4B, 0x03, 0x04, 0x14],
+    [0x37, 0x7A, 0xBC, 0xAF, 0x27],
+    [0x89, 0x50, 0x4E, 0x47, 0x0D],
+    *b"<?xml",
+    *b"Rar!\x1a",
+];
+
 pub fn gen_lzma(t: &mut Tape, marker: u64, max_target: u64) -> LzmaBuilt {
-    let props = gen::draw_props(t, false);
-    let (dict_hdr, dict) = gen::draw_dict_header(t);
+    let mut props = gen::draw_props(t, false);
+    let (mut dict_hdr, mut dict) = gen::draw_dict_header(t);
+    if t.below(40) == 0 {
+        // a header that happens to spell another format's magic number
+        let m = FOREIGN_MAGICS[t.below(FOREIGN_MAGICS.len() as u64) as usize];
+        if let Some(p) = Props::from_byte(m[0]) {
+            props = p;
+            dict_hdr = u32::from_le_bytes([m[1], m[2], m[3], m[4]]);
+            dict = (dict_hdr as u64).max(4096);
+        }
+    }
     let cfg = gen::draw_cfg(t);
     let target = gen::draw_target_len(t, dict).min(max_target);
     let mut enc = RefEnc::new(props, dict);
